@@ -182,7 +182,7 @@ pub fn run(ctx: &Ctx) -> Report {
     let mut cases2: Vec<Case> = Vec::new();
     for (c, m, t) in &hs {
         for l in &small {
-            for s in sealings(0) {
+            for s in sealings(0).into_iter().chain(sealings(8)) {
                 let mut ops = l.clone();
                 ops.extend(s);
                 cases2.push(Prog { class: *c, method: *m, tid: *t, ops }.to_case("build"));
@@ -388,6 +388,24 @@ pub fn judge(case: &Case, acc: &mut Acc) {
                     }
                 }
             }
+        }
+    }
+    // wherever the built bytes are copied to, they read back the same (typed values included)
+    {
+        let summary = |buf: &[u8]| -> Result<Vec<String>, String> {
+            match Message::from_bytes(buf) {
+                Err(e) => Err(format!("{e:?}")),
+                Ok(m) => {
+                    let seq = real::iterate(&m, 0).0;
+                    let mut v: Vec<String> = attrs::ALL_KINDS.iter().filter(|k| seq.iter().any(|(t, _)| *t == k.code())).map(|k| format!("{:?}", real::msg_attribute(&m, *k, p.tid & MASK96))).collect();
+                    v.push(format!("{seq:?}"));
+                    Ok(v)
+                }
+            }
+        };
+        let first = summary(b);
+        if let Some((r, got)) = real::differs_at_residue(b, &first, summary) {
+            viol!(acc, P, "readback-depends-on-alignment", case, format!("what the builder serialised reads back differently when the bytes lie at an address that is {r} modulo 4"), format!("{first:?}").chars().take(300).collect::<String>(), format!("{got:?}").chars().take(300).collect::<String>());
         }
     }
     // the real parser reads it back
